@@ -25,10 +25,10 @@ type Violation struct {
 // RunInfo is what a check reports besides violations: coverage probes and a shape key used to
 // count distinct non-trivial cases.
 type RunInfo struct {
-	Probes     map[string]int // "rare condition hit" counters
-	Shape      string         // scenario shape (distinctness)
-	NonTrivial bool           // the run exercised the property (by the property's stated rule)
-	Inconclusive string       // non-empty: the exact oracle was not applicable to this run (counted, never a violation)
+	Probes       map[string]int // "rare condition hit" counters
+	Shape        string         // scenario shape (distinctness)
+	NonTrivial   bool           // the run exercised the property (by the property's stated rule)
+	Inconclusive string         // non-empty: the exact oracle was not applicable to this run (counted, never a violation)
 }
 
 func (ri *RunInfo) probe(k string) {
@@ -46,7 +46,7 @@ type Property interface {
 	// grid first and draw the rest from rng.
 	Gen(rng *rand.Rand, tier string, i int) *sim.Scenario
 	Check(out *sim.Outcome, ri *RunInfo) []Violation
-	Rule() string       // how cases are generated and what makes one non-trivial / distinct
+	Rule() string // how cases are generated and what makes one non-trivial / distinct
 	Assumptions() []string
 	QuickRuns() int // fixed number of runs of the quick tier
 }
